@@ -600,7 +600,7 @@ fn gen_history(rng: &mut Rng, thorough: bool, wide: bool) -> (Hist, &'static str
     let mut g = G::new(rng, wide);
     let kind: &'static str;
     g.create();
-    if fam < 22 {
+    if fam < 24 {
         // all inserts happen before the first reopen; afterwards deletes / updates / DDL / queries with reopens in between
         kind = "reopen_no_later_insert";
         let n1 = 2 + g.rng.below(len as u64 / 2 + 1) as usize;
@@ -610,7 +610,7 @@ fn gen_history(rng: &mut Rng, thorough: bool, wide: bool) -> (Hist, &'static str
             if g.rng.chance(1, 3) { g.end_txn(); let c = g.rng.chance(1, 2); g.ops.push(if c { Op::ReopenClose } else { Op::ReopenDrop }); if g.rng.chance(1, 2) { g.ops.push(Op::Query); } }
             else { g.stmt(false); }
         }
-    } else if fam < 42 {
+    } else if fam < 46 {
         // checkpoints of every kind at random points, WAL setting fixed for the whole history, no reopen
         kind = "checkpoints";
         while g.ops.len() < len + 2 {
@@ -621,7 +621,7 @@ fn gen_history(rng: &mut Rng, thorough: bool, wide: bool) -> (Hist, &'static str
                 if g.rng.chance(1, 2) { g.ops.push(Op::Query); }
             } else { g.stmt(true); }
         }
-    } else if fam < 55 {
+    } else if fam < 60 {
         // reopen and checkpoints mixed; no insert after a reopen
         kind = "mixed_no_later_insert";
         let mut reopened = false;
@@ -634,7 +634,7 @@ fn gen_history(rng: &mut Rng, thorough: bool, wide: bool) -> (Hist, &'static str
                 _ => g.stmt(!reopened),
             }
         }
-    } else if fam < 66 {
+    } else if fam < 73 {
         // statements that fail, between good ones; interruptions that cannot meet a half-done statement:
         // WAL off: all four; WAL on: checkpoint() and close + open
         kind = "failing_statements";
@@ -648,7 +648,7 @@ fn gen_history(rng: &mut Rng, thorough: bool, wide: bool) -> (Hist, &'static str
                 _ => g.stmt(!reopened),
             }
         }
-    } else if fam < 78 {
+    } else if fam < 83 {
         // class 1 territory: inserts on both sides of a reopen
         kind = "insert_after_reopen";
         while g.ops.len() < len + 2 {
@@ -659,7 +659,7 @@ fn gen_history(rng: &mut Rng, thorough: bool, wide: bool) -> (Hist, &'static str
                 _ => g.stmt(true),
             }
         }
-    } else if fam < 87 {
+    } else if fam < 91 {
         // class 2 territory, directed: an image is logged, then the page changes without being logged
         // (WAL switched off / a multi-row INSERT that fails on its last row / wide: TRUNCATE, open transaction),
         // then a replaying checkpoint
@@ -679,7 +679,7 @@ fn gen_history(rng: &mut Rng, thorough: bool, wide: bool) -> (Hist, &'static str
         g.end_txn();
         g.ops.push(Op::Query);
         while g.ops.len() < len { g.stmt(false); }
-    } else if fam < 93 {
+    } else if fam < 96 {
         // the WAL setting changes inside the history
         kind = "wal_toggled";
         while g.ops.len() < len + 2 {
